@@ -226,11 +226,14 @@ class Case:
         forced_model = {}          # key -> {"created_at": t, "updated_at": t}   (last forced and not overwritten since)
         sigs = []
         kept = {}                  # key -> long-lived handle that has already read its timestamps (a second handle to every entity)
+        burst = None               # {"key", "left"}: listed changes and forced update times on one entity, same second, same long-lived handle
         try:
             for i in range(self.nops):
                 if upto is not None and i >= upto:
                     break
                 step = rng.choice([0, 0, 1, 1, 1000, 10 ** 7])
+                if burst is not None:
+                    step = 0            # a burst: several operations on ONE entity within the same clock second
                 clk.t += step
                 T = clk.t
                 stepc = {0: "0", 1: "1"}.get(step, "big")
@@ -247,12 +250,43 @@ class Case:
                     kept.setdefault(key, h)
                 r = rng.random()
                 klass, opname, target, forced = "other", "?", None, None
+                if burst is not None and (burst["left"] <= 0 or burst["key"] not in t0):
+                    burst = None
+                if burst is None and rng.random() < 0.07:
+                    cand = [e for e in ents if e[1] in LISTED]
+                    if cand:
+                        burst = {"key": rng.choice(cand)[0], "left": rng.randint(2, 4)}
+                        ctx.count("bursts_started")
                 try:
-                    if r < 0.45:
+                    if burst is not None:
+                        burst["left"] -= 1
+                        key = burst["key"]
+                        kind = key.split(":")[0]
+                        fresh = [e for e in ents if e[0] == key][0][2]
+                        ent = kept.get(key, fresh) if rng.random() < 0.75 else fresh
+                        if rng.random() < 0.55:
+                            klass = "listed"
+                            label, fn = rng.choice(LISTED[kind])
+                            opname = "%s.%s" % (kind, label)
+                            target = key
+                            fn(rng, ent, f)
+                            forced_model.get(key, {}).pop("updated_at", None) if auto else None
+                        else:
+                            klass = "force"
+                            t = rng.choice(special_times(rng))
+                            opname = "force_updated_at"
+                            forced = (key, "updated_at", t, False)
+                            ent.force_updated_at(t)
+                            forced_model.setdefault(key, {})["updated_at"] = t
+                        opname += ":burst"
+                        ctx.count("burst_ops")
+                    elif r < 0.45:
                         klass = "listed"
                         kinds = [k for k in LISTED if any(e[1] == k for e in ents)]
                         kind = rng.choice(kinds)
                         key, _, ent = rng.choice([e for e in ents if e[1] == kind])
+                        if rng.random() < 0.4:
+                            ent = kept.get(key, ent)        # through the long-lived handle of that entity
                         label, fn = rng.choice(LISTED[kind])
                         opname = "%s.%s" % (kind, label)
                         target = key
